@@ -262,10 +262,12 @@ def bandlimited_rms(r, psd, wllow=None, wlhigh=None, flow=None, fhigh=None):
     # prysm doesn't enforce the user to be "top left" or "lower left" origin,
     # abs makes sure we do things right no matter what
     dx = abs(pt2 - pt1)
-    reduced = np.trapz(work, dx=dx, axis=0)
+    # numpy 2 renamed trapz to trapezoid
+    trapz = getattr(np, 'trapezoid', None) or np.trapz
+    reduced = trapz(work, dx=dx, axis=0)
 
     if r.ndim == 2:
-        reduced = np.trapz(reduced, dx=dx, axis=0)
+        reduced = trapz(reduced, dx=dx, axis=0)
 
     return np.sqrt(reduced)
 
